@@ -214,8 +214,8 @@ uint8_t *Linker::get_code_from_symbol(
         imports->code,
         imports->size,
         symbol,
-        function_offset,
         function_size,
+        function_offset,
         &file_offset);
 
       *obj_file = imports->code;
